@@ -141,11 +141,23 @@ Http::ContentLengthInterpreter::checkList(const String &list)
     const char *pos = nullptr;
     const char *item = nullptr;;
     int ilen = -1;
+    int items = 0;
     while (strListGetItem(&list, ',', &item, &ilen, &pos)) {
+        ++items;
         if (!checkValue(item, ilen) && sawBad)
             break;
         // keep going after a duplicate value to find conflicting ones
     }
+
+    // strListGetItem() returns zero at the end of the list but also for a list
+    // member that is empty after trimming (e.g., a lone VT or FF). Such a
+    // member is not a number: do not ignore it or the members after it. And
+    // do not mistake a list without any member for a missing header field.
+    if (!sawBad && (!items || pos != item)) {
+        debugs(55, debugLevel, "WARNING: Malformed list in" << Raw("Content-Length", list.rawBuf(), list.size()));
+        sawBad = true;
+    }
+
     return false; // no need to keep this list field; it will be sanitized away
 }
 
